@@ -1013,7 +1013,10 @@ class BaseEvolutionOperations(object):
                                      new_value):
         """Returns the SQL for changing a column's name."""
         new_field = copy.copy(field)
-        new_field.column = new_value
+
+        # A db_column of None means the column goes back to the default name
+        # for the field.
+        new_field.column = new_value or field.get_attname()
 
         return self.rename_column(model, field, new_field)
 
